@@ -133,7 +133,8 @@ def main(argv=None):
     samples = []
     tot = {"paths": 0, "nontrivial_paths": 0, "sat": 0, "unsat": 0, "unknown": 0, "solver_s": 0.0}
     obligations = discharged = inconclusive = 0
-    os.makedirs(os.path.join(VERIF, "replays", prop), exist_ok=True)
+    replay_dir = os.path.join(os.environ.get("VERIF_REPLAY_DIR") or os.path.join(VERIF, "replays"), prop)
+    os.makedirs(replay_dir, exist_ok=True)
 
     def hrec(hh):
         return per_h.setdefault(hh.name, {
@@ -197,7 +198,7 @@ def main(argv=None):
                             except Exception:
                                 pass
                     digest = hashlib.sha1(json.dumps([hh.name, sh, args], sort_keys=True).encode()).hexdigest()[:10]
-                    path = os.path.join(VERIF, "replays", prop, f"{hh.name}-{digest}.json")
+                    path = os.path.join(replay_dir, f"{hh.name}-{digest}.json")
                     with open(path, "w") as f:
                         json.dump({"property": prop, "module": hh.module, "harness": hh.name, "tier": tier, "shard": sh,
                                    "args": args, "message": r.get("message"), "replay": rp}, f, indent=1)
@@ -286,8 +287,9 @@ def main(argv=None):
     }
     if errors:
         ev["coverage"]["harness_errors"] = errors
-    os.makedirs(os.path.join(VERIF, "evidence"), exist_ok=True)
-    with open(os.path.join(VERIF, "evidence", prop + ".json"), "w") as f:
+    evdir = os.environ.get("VERIF_EVIDENCE_DIR") or os.path.join(VERIF, "evidence")
+    os.makedirs(evdir, exist_ok=True)
+    with open(os.path.join(evdir, prop + ".json"), "w") as f:
         json.dump(ev, f, indent=1, default=repr)
 
     for line in known_lines:
